@@ -862,6 +862,56 @@ func ruleRemainderInvariant(c *Ctx, rule string) {
 	if n < 2 {
 		c.Undecided(rule, f.Name+"|remainder", "only %d assignments of the remainder found", n)
 	}
+	// the window after a read: what was pending plus what was read. The read appends at inBuf[L:], so the new
+	// prefix must reach L + (bytes read)
+	for i, rd := range f.Calls(f.Decl.Body, false, "io.Reader.Read", "os.File.Read") {
+		if len(rd.Args) != 1 {
+			continue
+		}
+		target := ast.Unparen(rd.Args[0])
+		if id, ok := target.(*ast.Ident); ok {
+			if rhs, _, ok := f.definedBy(f.Decl.Body, f.ObjOf(id)); ok && rhs != nil {
+				target = ast.Unparen(rhs)
+			}
+		}
+		se, ok := target.(*ast.SliceExpr)
+		if !ok || exprKey(se.X) != r+".inBuf" || se.Low == nil {
+			continue
+		}
+		low := exprKey(se.Low)
+		cnt := f.resultVar(f.Decl.Body, rd, 0)
+		if cnt == nil {
+			continue
+		}
+		key := f.Name + "|window-after-read#" + itoa(i+1)
+		found, okWin := false, true
+		inspectBody(f.Decl.Body, func(x ast.Node) bool {
+			as, ok := x.(*ast.AssignStmt)
+			if !ok || len(as.Lhs) != 1 || exprKey(as.Lhs[0]) != r+".remainder" || as.Pos() < rd.Pos() {
+				return true
+			}
+			w, isS := ast.Unparen(as.Rhs[0]).(*ast.SliceExpr)
+			if !isS || w.High == nil || exprKey(w.X) != r+".inBuf" {
+				return true
+			}
+			found = true
+			hi := exprKey(w.High)
+			usesCount := false
+			ast.Inspect(w.High, func(y ast.Node) bool {
+				if id, ok := y.(*ast.Ident); ok && f.ObjOf(id) == cnt {
+					usesCount = true
+				}
+				return true
+			})
+			if !usesCount || !strings.Contains(hi, low) {
+				okWin = false
+			}
+			return true
+		})
+		if found {
+			c.Check(okWin, rule, key, rd.Pos(), "the window after the read is pending + read bytes", "the read appends at inBuf["+low+":] but the window kept afterwards does not reach "+low+" + the number of bytes read: when a partial key (a multi-byte character cut by the previous read) was pending, the last bytes just read are dropped")
+		}
+	}
 }
 
 // ---- I. stale derived values ------------------------------------------------------------------------------
